@@ -38,7 +38,7 @@ type CallResult struct {
 
 // Step is one step of a history (C14).
 type Step struct {
-	Kind string `json:"kind"` // transpile | write | remove | symlink | move | chdir | exe | epoch
+	Kind string `json:"kind"` // transpile | write | remove | symlink | hardlink | move | chdir | exe | epoch
 
 	// transpile
 	Obj     int      `json:"obj,omitempty"`
@@ -54,7 +54,7 @@ type Step struct {
 	Data      Bytes  `json:"data,omitempty"`
 	KeepMtime bool   `json:"keep_mtime,omitempty"` // the edit keeps the file's modification time (an edit within the timestamp granularity, or a tool that restores it)
 
-	// symlink: File becomes a symbolic link to Link
+	// symlink: File becomes a symbolic link to Link; hardlink: File becomes another name of the file Link
 	Link string `json:"link,omitempty"`
 
 	// move
